@@ -195,6 +195,33 @@ func cryptFlows(e *cryptEnv) {
 			default:
 				r.Count("flows_previous_pair_still_opens:"+variant, 1)
 			}
+			// last: the node is handed an answer that names another server key and cannot be opened. It is
+			// refused, and what the node has in storage is what it stored: loaded again, it still derives the
+			// secret the server derives for this agreement (the in-memory object is not judged)
+			bad := &types.FetchNodeCredentialsResponse{ServerEncryptionPublicKeyBytes: world.NewX25519().Pub, ServerEncryptionPublicKeyType: types.KEYTYPE_X25519, EncryptedNodeCredentials: world.RandBytes(96)}
+			if _, herr := old.Handle(bad); herr == nil {
+				r.Count("flows_unopenable_answer_accepted(not judged here)", 1)
+				return
+			}
+			stored, lerr := old.Stored()
+			if lerr != nil {
+				r.Broken("crypt flows: stored credentials of the node cannot be loaded: " + lerr.Error())
+				return
+			}
+			got3 := cryptNewMsg("FetchNodeCredentialsRequest")
+			env3, err := nodeenrollment.EncryptMessage(e.ctx, msg, newInfo)
+			switch derr := error(nil); {
+			case err != nil:
+				r.Broken("crypt flows: encrypt under the latest agreement: " + err.Error())
+			default:
+				if derr = nodeenrollment.DecryptMessage(e.ctx, env3, stored, got3); derr != nil {
+					r.Violation("agree:secret-differs:stored-credentials-after-refused-answer", fmt.Sprintf("after the node refused an answer naming another server key, the credentials it has in storage no longer derive the server's secret for this key agreement: %v", derr), cs)
+				} else if !proto.Equal(got3, msg) {
+					r.Violation("different-plaintext:flows:stored-credentials-after-refused-answer", "decryption with the stored credentials returned a different message", cs)
+				} else {
+					r.Count("flows_stored_credentials_agree_after_refused_answer", 1)
+				}
+			}
 		})
 		if p != nil {
 			if f := engine.LibraryFrame(st); f != "" {
